@@ -109,5 +109,23 @@ def oer_c_empty_marker_not_skipped():
         shutil.rmtree(d, ignore_errors=True)
 
 
+def ber_choice_alternatives_of_one_recursive_type():
+    """Two texts that differ only in the order of the assignments decode the same BER octets to different values."""
+    import json
+    import os
+    core.setup_path()
+    import asn1tools
+    with open(os.path.join(core.VERIF, 'findings', 'data', 'ber-choice-alternatives-of-one-recursive-type.json')) as f:
+        w = json.load(f)
+    v = core.unjson(w['value'])
+    try:
+        s1 = asn1tools.compile_string(w['original'], 'ber')
+        s2 = asn1tools.compile_string(w['arrangement'], 'ber')
+        e = s1.encode(w['type'], v)
+        return s1.decode(w['type'], e) != s2.decode(w['type'], e)
+    except Exception:
+        return True
+
+
 if __name__ == '__main__':
     sys.exit(1 if globals()[sys.argv[1]]() else 0)
